@@ -143,6 +143,12 @@ let scen fields =
            if s_bool held then begin
              (* still stored: Core.receive drops the duplicate, the algorithm is not told *)
              tag "rerecv-while-held";
+             (* ... but the handler has already synced the descriptor with the duplicate's receiving
+                endpoint (core.go: bp.Receiver = crb.Endpoint; bp.Sync()), which is what the sensor mule
+                goes by afterwards *)
+             (match Hashtbl.find_opt bundles b with
+              | Some old when algo = "mule" -> Hashtbl.replace bundles b { old with recvr = s_int recvr }
+              | _ -> ());
              if sends_of b <> [] then fail (Mismatch (Printf.sprintf "op %d: duplicate of the held bundle %d triggers transmissions" !opno b))
            end else begin
              let old = Hashtbl.find bundles b in
